@@ -1,6 +1,10 @@
 use crate::errors::PriceLevelError;
 use crate::orders::{OrderId, OrderType};
+#[cfg(pricelevel_verif)]
+use crate::verif_sync::{DashMap, SegQueue};
+#[cfg(not(pricelevel_verif))]
 use crossbeam::queue::SegQueue;
+#[cfg(not(pricelevel_verif))]
 use dashmap::DashMap;
 use serde::de::{SeqAccess, Visitor};
 use serde::ser::SerializeSeq;
